@@ -118,28 +118,16 @@ def DL(name, values, comment=''):
         rows.append('  ' + ', '.join(str(v) for v in values[i:i + 8]))
     return f'{c}def {name} : List Nat := [\n' + ',\n'.join(rows) + ']'
 
-@module('Consts')
-def gen_footer(items):
-    f = 'src/directory/footer.rs'
-    items.append(lambda: D('FOOTER_MAX_LEN', const(f, 'FOOTER_MAX_LEN'), f))
-    items.append(lambda: D('FOOTER_MAGIC_NUMBER', const(f, 'FOOTER_MAGIC_NUMBER'), f))
-    items.append(lambda: D('INDEX_FORMAT_VERSION', const('src/lib.rs', 'INDEX_FORMAT_VERSION'), 'src/lib.rs'))
-    items.append(lambda: D('INDEX_FORMAT_OLDEST_SUPPORTED_VERSION', const('src/lib.rs', 'INDEX_FORMAT_OLDEST_SUPPORTED_VERSION'), 'src/lib.rs'))
-    def min_len():
-        body = fn_body(f, 'extract_footer')
-        m = re.search(r'if\s+file\.len\(\)\s*<\s*([A-Za-z0-9_]+)\s*\{', body)
-        if not m:
-            raise Fail(f'{f}: length guard of extract_footer not found')
-        g = m.group(1)
-        if re.fullmatch(r'\d+', g):
-            return D('FOOTER_MIN_FILE_LEN', int(g), 'guard of extract_footer')
-        m2 = re.search(r'let\s+' + g + r'\s*=\s*<\(u32,\s*u32\)>::SIZE_IN_BYTES\s*;', body)
-        if m2:
-            return D('FOOTER_MIN_FILE_LEN', 8, 'guard of extract_footer: <(u32,u32)>::SIZE_IN_BYTES')
-        raise Fail(f'{f}: cannot evaluate guard {g}')
-    items.append(min_len)
+# items live in extract/items/*.py; each file registers one or more Gen modules with @module('Name')
+def load_items():
+    import glob
+    d = os.path.join(os.path.dirname(os.path.abspath(__file__)), 'items')
+    for path in sorted(glob.glob(os.path.join(d, '*.py'))):
+        code = compile(open(path, encoding='utf-8').read(), path, 'exec')
+        exec(code, globals())
 
 def main():
+    load_items()
     os.makedirs(OUT, exist_ok=True)
     status = {'repo': REPO, 'modules': {}, 'failures': [], 'items': 0}
     for mod, gen in MODULES.items():
